@@ -151,9 +151,14 @@ class Evolver:
             return {"kind": "reference", "name": self.pick(pool)}
         if k == "ref-enum":
             pool = self.new_enums * 3 + self.closed_enums
+            if not pool:
+                return {"kind": "base", "name": "uinteger"}
             return {"kind": "reference", "name": self.pick(pool)}
         if k == "ref-alias":
-            return {"kind": "reference", "name": self.pick(SAFE_ALIASES)}
+            present = [a for a in SAFE_ALIASES if any(x["name"] == a for x in self.doc["typeAliases"])]
+            if not present:
+                return {"kind": "base", "name": "string"}
+            return {"kind": "reference", "name": self.pick(present)}
         if k == "array":
             return {"kind": "array", "element": self.simple_type(depth + 1, allow_literal)}
         if k == "map":
@@ -276,15 +281,75 @@ class Evolver:
     FOCI = ["ornull-first", "ornull-last", "literal", "tuple", "map", "array", "ref-enum", "ref-alias", "ref-struct", "base",
             "override-chain", "keyword-name", "message", "enum-value", "remove-optional", "new-structure",
             # productions that once exposed a defect (kept as a standing floor)
-            "message-no-typename", "rust-keyword-name", "base-regexp", "empty-struct-property", "request-no-typename"]
+            "message-no-typename", "rust-keyword-name", "base-regexp", "empty-struct-property", "request-no-typename",
+            "matrix", "same-name-different-nullness", "shared-registration-method"]
     RUST_AND_PYTHON_KEYWORDS = ["in", "for", "as", "if", "else", "while", "continue", "break", "return", "async", "await", "try", "yield"]
+
+    MATRIX_PRODUCTIONS = ["base", "ref-struct", "ref-enum", "ref-alias", "array", "map", "tuple", "ornull-first", "ornull-last", "literal"]
+
+    def e_matrix(self) -> None:
+        """new structures whose properties cover every pair (name kind x type production x required/optional):
+        defects tend to need two features at once (a keyword name AND a null-admitting required type...)."""
+        py_only = [k for k in self.kw_names if k not in self.RUST_AND_PYTHON_KEYWORDS and k not in self.taken_props]
+        rust_py = [k for k in self.RUST_AND_PYTHON_KEYWORDS if k not in self.taken_props]
+        combos = [(prod, opt) for prod in self.MATRIX_PRODUCTIONS for opt in (False, True)]
+        made = []
+        for kind, pool in (("plain", None), ("python-keyword", py_only), ("rust-keyword", rust_py)):
+            remaining = list(combos)
+            while remaining:
+                name = self.fresh_type_name("VfMx")
+                local: set = set()
+                props = []
+                names_left = list(pool) if pool is not None else None
+                while remaining and (names_left is None or names_left):
+                    prod, opt = remaining.pop(0)
+                    p = self.new_property(local, depth=1, force=prod, optional=opt)
+                    if names_left is not None:
+                        local.discard(p["name"])
+                        p["name"] = names_left.pop(0)
+                        local.add(p["name"])
+                    props.append(p)
+                self.doc["structures"].append({"name": name, "properties": props})
+                self.keep_inhabitable(props)
+                self.new_structs.append(name)
+                made.append(name)
+        self.edits.append({"edit": "E1-matrix", "structures": made})
+
+    def e_same_name(self) -> None:
+        """new structures that reuse one property name with the same value type but different optional/null-admission
+        (names need not be globally unique in the metamodel: `command`, `data`, `kind`... occur in many structures)."""
+        inner = self.simple_type(1, allow_literal=False, force=self.pick(["ref-struct", "array", "ref-alias"]))
+        pname = self.fresh_prop_name(set())
+        null = {"kind": "base", "name": "null"}
+        variants = [
+            {"name": pname, "type": inner, "optional": True},
+            {"name": pname, "type": {"kind": "or", "items": [inner, null]}, "optional": True},
+            {"name": pname, "type": {"kind": "or", "items": [inner, null]}},
+            {"name": pname, "type": inner},
+        ]
+        order = self.draw(st.permutations(list(range(4))))
+        made = []
+        for i in order:
+            name = self.fresh_type_name("VfSn")
+            self.doc["structures"].append({"name": name, "properties": [copy.deepcopy(variants[i])]})
+            self.new_structs.append(name)
+            made.append(name)
+        self.keep_inhabitable([])
+        self.edits.append({"edit": "E1-same-name", "structures": made, "property": pname})
 
     def e_focus(self, focus: str) -> None:
         """one edit that is guaranteed to exercise the named production (generation floor of a run)."""
+        if focus == "matrix":
+            return self.e_matrix()
+        if focus == "same-name-different-nullness":
+            return self.e_same_name()
         if focus == "override-chain":
             return self.e_override_chain()
         if focus == "message":
             return self.e_new_message()
+        if focus == "shared-registration-method":
+            self.e_new_message(is_request=True, registration="shared")
+            return self.e_new_message(registration="shared")
         if focus in ("message-no-typename", "request-no-typename"):
             return self.e_new_message(with_type_name=False, is_request=True if focus.startswith("request") else None)
         if focus == "rust-keyword-name":
@@ -370,7 +435,8 @@ class Evolver:
     def _struct_ref(self) -> dict:
         return {"kind": "reference", "name": self.pick(self.new_structs * 3 + self.base_structs)}
 
-    def e_new_message(self, with_type_name: Optional[bool] = None, is_request: Optional[bool] = None) -> None:
+    def e_new_message(self, with_type_name: Optional[bool] = None, is_request: Optional[bool] = None,
+                      registration: Optional[str] = None) -> None:
         self.counter += 1
         word = self.pick(WORDS_L) + self.pick(WORDS_U)
         if is_request is None:
@@ -387,9 +453,16 @@ class Evolver:
             msg["typeName"] = self.fresh_type_name("Vm") + ("Request" if is_request else "Notification")
         if self.draw(st.booleans()):
             msg["params"] = self._struct_ref()
-        if self.draw(st.integers(0, 2)) == 0:
+        if registration == "shared" or self.draw(st.integers(0, 2)) == 0:
             pool = [s for s in self.base_structs if s.endswith("RegistrationOptions")] + self.new_structs
-            msg["registrationOptions"] = {"kind": "reference", "name": self.pick(pool)}
+            used = {m.get("registrationOptions", {}).get("name") for m in self.doc["requests"] + self.doc["notifications"]
+                    if m.get("registrationMethod") == "vf/sharedRegistration"}
+            pool2 = [s for s in pool if s not in used] or pool
+            msg["registrationOptions"] = {"kind": "reference", "name": self.pick(pool2 if registration == "shared" else pool)}
+            # several messages may be registered under one method while declaring different options
+            if registration == "shared" or self.draw(st.integers(0, 2)) == 0:
+                others = [m["method"] for m in self.doc["requests"] if m.get("registrationOptions")]
+                msg["registrationMethod"] = "vf/sharedRegistration" if registration == "shared" else self.pick(others + ["vf/sharedRegistration"])
         if is_request:
             r = self.draw(st.integers(0, 3))
             if r == 0:
